@@ -1,7 +1,11 @@
-(* ribquery engine (C11): RibQueryModel.rq_handle (the code as it is, over the
-   store as it is), rq_handle_spec (what the property demands) and
-   rq_handle_mid (the code over an exact store; only used to name the reason of
-   a difference) on one case line; prints  model ||| spec ||| classes.
+(* ribquery engine (C11): the unit over time, RibQueryModel.rq_step (state =
+   query limits + RIB content; the code as it is, over the store as it is),
+   rq_step_spec (what the property demands) and rq_step_mid (the code over an
+   exact store; only used to name the reason of a difference) on one case
+   line; prints  model ||| spec ||| classes.  L (limits the unit starts with)
+   and R (limits stored by a reconfiguration while the API object exists) are
+   both the model's OLimits: the answer uses the limits in force
+   (C11_limit_is_current).
    Case grammar: see harness/src/engines/ribquery.rs.
    classes: MC = multicast entries hidden by Rib::match_prefix,
             MS = rotonda-store's more-specifics iterator, MCMS = both. *)
@@ -41,8 +45,7 @@ let bytes_of_string (s : string) = Stdlib.List.init (String.length s) (fun i -> 
    finding class explains the difference (bulk engine ribqueryx); otherwise the
    property's answer is the expected one (engine ribquery). *)
 let run_case_with (explained : bool) (line : string) : string =
-  let rib = ref RibModel.rib_empty in
-  let lim = ref { lim_v4 = n 8; lim_v6 = n 19 } in
+  let st = ref { st_lim = { lim_v4 = n 8; lim_v6 = n 19 }; st_rib = RibModel.rib_empty } in
   let peers : (int * BinNums.coq_N option option) list ref = ref [] in
   let tbl : (int * rq_attrs) list ref = ref [] in
   let reg (m : BinNums.coq_N) = try Stdlib.List.assoc (int_of_n m) !peers with Not_found -> None in
@@ -61,11 +64,14 @@ let run_case_with (explained : bool) (line : string) : string =
     | RBad -> "400"
     | RDump -> "200:dump"
     | RJson a -> "200:" ^ section v6 "d" (Some a.a_data) ^ ":" ^ section v6 "l" a.a_less ^ ":" ^ section v6 "m" a.a_more in
+  (* every state change goes through the extracted step function *)
+  let advance op = st := fst (rq_step attrs reg !st op) in
+  let respond step rq = match snd (step attrs reg !st (ORequest rq)) with Some r -> r | None -> failwith "request without response" in
   let do_op toks =
     let t k = Stdlib.List.nth toks k in
     let i k = int_of_string (t k) in
     match Stdlib.List.hd toks with
-    | "L" -> lim := { lim_v4 = n (i 1); lim_v6 = n (i 2) }; emit "-" "-" "."
+    | "L" | "R" -> advance (OLimits { lim_v4 = n (i 1); lim_v6 = n (i 2) }); emit "-" "-" "."
     | "P" ->
         let k = i 1 in
         let info = match t 2 with "x" -> None | "-" -> Some None | a -> Some (Some (n (int_of_string a))) in
@@ -78,25 +84,25 @@ let run_case_with (explained : bool) (line : string) : string =
         let comms = if t 6 = "-" then [] else Stdlib.List.map (fun c -> n (int_of_string c)) (String.split_on_char ',' (t 6)) in
         tbl := (tag, { pa_path = path; pa_comms = comms }) :: Stdlib.List.remove_assoc tag !tbl;
         let key = ((n fam, rq_code (take len bits)), n (i 1)) in
-        rib := RibModel.rib_apply !rib (RibModel.UBulk [ { RibModel.p_key = key; RibModel.p_active = true; RibModel.p_attrs = n tag } ]);
+        advance (OUpdate (RibModel.UBulk [ { RibModel.p_key = key; RibModel.p_active = true; RibModel.p_attrs = n tag } ]));
         emit "-" "-" "."
     | "W" ->
         let fam = i 2 in
         let (bits, len) = parse_pfx (t 3) in
         let key = ((n fam, rq_code (take len bits)), n (i 1)) in
-        rib := RibModel.rib_apply !rib (RibModel.UBulk [ { RibModel.p_key = key; RibModel.p_active = false; RibModel.p_attrs = n 0 } ]);
+        advance (OUpdate (RibModel.UBulk [ { RibModel.p_key = key; RibModel.p_active = false; RibModel.p_attrs = n 0 } ]));
         emit "-" "-" "."
     | "D" ->
         let fam = if t 2 = "-" then None else Some (n (i 2)) in
-        rib := RibModel.rib_apply !rib (RibModel.UWithdraw (n (i 1), fam)); emit "-" "-" "."
+        advance (OUpdate (RibModel.UWithdraw (n (i 1), fam))); emit "-" "-" "."
     | "Q" ->
         let v6 = t 1 = "6" in
         let (bits, len) = parse_pfx (t 2) in
         let raw = if t 3 = "-" then None else Some (bytes_of_string (t 3)) in
         let rq = { rq_v6 = v6; rq_addr = bits; rq_plen = n len; rq_raw = raw } in
-        let m = show v6 (rq_handle !lim !rib attrs reg rq) in
-        let s = show v6 (rq_handle_spec !lim !rib attrs reg rq) in
-        let mid = show v6 (rq_handle_mid !lim !rib attrs reg rq) in
+        let m = show v6 (respond rq_step rq) in
+        let s = show v6 (respond rq_step_spec rq) in
+        let mid = show v6 (respond rq_step_mid rq) in
         let c = if m = s then "." else
             (match m <> mid, mid <> s with
              | true, true -> "MCMS" | true, false -> "MS" | false, true -> "MC" | false, false -> "?") in
